@@ -3,5 +3,5 @@ from ..composite import Composite
 from ..e1 import E1Part
 from .C02_killtree import PART as KILLTREE
 
-E1 = E1Part("C06", [("kill", 4), ("killwith", 2), ("mixed", 1)], ["C06", "C01"], ["LokyModel.Props.C06", "LokyModel.Props.C06Live"], quick=1200, thorough=30000, starve=2)
+E1 = E1Part("C06", [("kill", 4), ("killwith", 2), ("mixed", 1)], ["C06", "C01"], ["LokyModel.Props.C06", "LokyModel.Props.C06Live", "LokyModel.Props.C06Term"], quick=1200, thorough=30000, starve=2)
 PROP = Composite("C06", [E1, KILLTREE])
